@@ -25,6 +25,8 @@ pub enum Op {
     Stmt,
     /// SET <tracked> outside a transaction
     SetTracked(u8, String),
+    /// the same through the extended protocol (Parse/Bind/Execute/Sync of the SET statement)
+    SetTrackedExt(u8, String),
     SetUntracked(u8, String),
     /// BEGIN; SET <tracked>; statement; COMMIT or ROLLBACK
     TxnSet(u8, String, bool),
@@ -86,6 +88,7 @@ fn client_strategy() -> BoxedStrategy<Client> {
     let op = prop_oneof![
         5 => Just(Op::Stmt),
         3 => tracked_pair().prop_map(|(i, v)| Op::SetTracked(i, v)),
+        1 => tracked_pair().prop_map(|(i, v)| Op::SetTrackedExt(i, v)),
         2 => (0u8..3, "[a-z0-9]{1,6}").prop_map(|(i, v)| Op::SetUntracked(i, v)),
         2 => (tracked_pair(), any::<bool>()).prop_map(|((i, v), c)| Op::TxnSet(i, v, c)),
         1 => (0u8..5).prop_map(Op::Reset),
@@ -113,7 +116,7 @@ impl Part for WirePart {
         true
     }
     fn rule(&self) -> String {
-        "2..3 clients sharing a pool of 1..2 connections (transaction mode, or session mode with a connection each); start-up packets with 0..3 of the five tracked parameters (both spellings of TimeZone/DateStyle); per client 1..6 operations over {tagged statement, SET tracked outside a transaction, SET untracked, BEGIN; SET tracked; statement; COMMIT|ROLLBACK, RESET tracked, RELOAD with an unchanged file or one that changes pool_size (the pool and its server connections are rebuilt under the connected clients)} in a generated interleaving; application_name values include quotes, doubled quotes, backslashes, ';', '--', comment and dollar-quote openers, non-ASCII. Oracle (evaluated on the mock backend's GUC table at every tagged statement): the five tracked parameters equal what the issuing client was last told in ParameterStatus (checked against its own start-up values too), and in transaction mode no untracked value set by anybody is visible. Non-trivial = a value containing a quote/backslash/non-ASCII, or two clients holding different values of one parameter on one connection".into()
+        "2..3 clients sharing a pool of 1..2 connections (transaction mode, or session mode with a connection each); start-up packets with 0..3 of the five tracked parameters (both spellings of TimeZone/DateStyle); per client 1..6 operations over {tagged statement, SET tracked outside a transaction (simple or extended protocol), SET untracked, BEGIN; SET tracked; statement; COMMIT|ROLLBACK, RESET tracked, RELOAD with an unchanged file or one that changes pool_size (the pool and its server connections are rebuilt under the connected clients)} in a generated interleaving; application_name values include quotes, doubled quotes, backslashes, ';', '--', comment and dollar-quote openers, non-ASCII. Oracle (evaluated on the mock backend's GUC table at every tagged statement): the five tracked parameters equal what the issuing client was last told in ParameterStatus (checked against its own start-up values too), and in transaction mode no untracked value set by anybody is visible. Non-trivial = a value containing a quote/backslash/non-ASCII, or two clients holding different values of one parameter on one connection".into()
     }
     fn cases(&self, tier: Tier) -> u64 {
         tier.pick(1_600, 24_000)
@@ -229,6 +232,13 @@ async fn run_case(c: &Case, ctx: &mut WorkerCtx) -> Outcome {
                     o.nontrivial = true;
                 }
                 vec![Req::Simple(vec![St::new(Sk::Set(TRACKED[*idx as usize % 5].0.into(), v.clone()))])]
+            }
+            Op::SetTrackedExt(idx, v) => {
+                if special(v) {
+                    o.nontrivial = true;
+                }
+                let st = St::new(Sk::Set(TRACKED[*idx as usize % 5].0.into(), v.clone()));
+                vec![Req::Batch(vec![prog::Ext::Parse(String::new(), st, vec![]), prog::Ext::Bind(String::new(), String::new()), prog::Ext::Execute(String::new(), 0)])]
             }
             Op::SetUntracked(idx, v) => vec![Req::Simple(vec![St::new(Sk::Set(UNTRACKED[*idx as usize % 3].into(), v.clone()))])],
             Op::TxnSet(idx, v, commit) => vec![
